@@ -63,6 +63,9 @@ def _writes_in(body, adt, field):
     return out
 
 
+_COMBINED = {}
+
+
 def _roles(facts, tr):
     """the context's private mutators, named by their effect on the fields the public accessors expose:
     set_status writes the field status() returns; record_failure / record_success increment the field
@@ -77,10 +80,20 @@ def _roles(facts, tr):
             if b0.kind == "fn" and b0.impl and not b0.impl.get("trait") and b0.types[b0.impl["self_ty"]].get("def") == ctx and b0.j.get("vis") != "pub":
                 yield b0, (ff.bodies.get(b0.def_) or b0)
     st = _accessor_field(facts, tr, "status")
+    _COMBINED.clear()
     if st:
         for (b0, b) in methods(st[2]):
             if b0.arg_count == 2 and _writes_in(b, st[0], st[1]):
                 roles[b0.def_] = "set_status"
+            elif b0.arg_count == 1:
+                # a mutator that counts a result *and* publishes a fixed status in one step (`record_degraded()`): at its
+                # call sites it stands for the recorder followed by set_status(<that status>)
+                vs = set()
+                for (i, j, s_) in _writes_in(b, st[0], st[1]):
+                    v_ = peel(ftr.stmt_value(b, i, j))
+                    vs.add(ftr.agg_of(v_)[1].get("variant") if v_[0] == "agg" else None)
+                if len(vs) == 1 and None not in vs:
+                    _COMBINED[b0.def_] = next(iter(vs))
     for acc, role in (("consecutive_failures", "record_failure"), ("consecutive_successes", "record_success")):
         fl = _accessor_field(facts, tr, acc)
         if not fl:
@@ -130,6 +143,12 @@ def run(facts, tr, rep):
             if d in roles:
                 return roles[d]
         return None
+
+    def combined_of(c):
+        for d in c.targets_def():
+            if d in _COMBINED and d in roles:
+                return _COMBINED[d]
+        return None
     # the thresholds are judged on a view in which every helper except the context's mutators themselves is inlined:
     # an `apply_check_outcome(outcome, success_threshold, failure_threshold)` helper is analysed once per call site,
     # with that call's arguments (a swapped pair at one of two call sites must not hide behind the other)
@@ -143,7 +162,7 @@ def run(facts, tr, rep):
         if facts.absorbed(b):
             continue
         for c in graph(b).calls():
-            if role_of(c) == "set_status":
+            if role_of(c) == "set_status" or combined_of(c):
                 sites.append((b, c))
     rep.floor("C18.set_status-sites", len(sites), 3)
     tasks = {b.def_ for (b, _c) in sites}
@@ -185,7 +204,7 @@ def run(facts, tr, rep):
         rec_f = [c for c in g.calls() if role_of(c) == "record_failure"]
         seen_targets = set()
         for n, (bb_, c) in enumerate(sites):
-            tgt = _const_variant(tr, b, c.args[1], c.loc)
+            tgt = combined_of(c) or (_const_variant(tr, b, c.args[1], c.loc) if len(c.args) > 1 else None)
             seen_targets.add(tgt)
             edges = dominating_edges(tr, b, c.bb)
             arm = [e["label"] for e in edges if e["kind"] == "enum" and e["bb"] == arms_sw.bb]
@@ -282,30 +301,32 @@ def run(facts, tr, rep):
         if not rb:
             rep.anchor_missing("HealthCheckedContext::" + nm)
             continue
-        # judged on the recorder's fully inlined body: the updates may sit in a closure handed to a lock helper or in a
-        # method of the state struct
-        ffc_, ftrc_ = view_of(facts, "full")
-        rb = ffc_.bodies.get(rb[0].def_) or rb[0]
-        tr_c_keep, tr = tr, ftrc_
-        rep.saw(rb)
-        ws = {}
-        for i, blk in enumerate(rb.blocks):
-            for j, s in enumerate(blk["stmts"]):
-                if s["k"] == "assign" and s["lhs"]["p"]:
-                    names = [e.get("n") for e in s["lhs"]["p"] if isinstance(e, dict) and "f" in e]
-                    if names:
-                        ws[names[-1]] = peel(tr.stmt_value(rb, i, j))
-        vi = ws.get(inc)
-        if vi is not None and vi[0] == "field" and peel(vi[1])[0] == "binop":
-            vi = peel(vi[1])
-        ok_inc = vi is not None and vi[0] == "binop" and vi[1] in ("Add", "AddWithOverflow") and peel(vi[3])[0] == "const" and peel(vi[3])[3] == "1"
-        vz = ws.get(zero)
-        ok_zero = vz is not None and vz[0] == "const" and vz[3] == "0"
-        locks = [c for c in graph(rb).calls() if c.name in ("write", "lock")]
-        tr = tr_c_keep
-        rep.ob("C18.COUNTERS", skey(rb, "effect"), ok_inc and ok_zero and len(locks) == 1, "%s:%d" % (rb.span["file"], rb.span["line"]),
-               "%s increments %s and zeroes %s under one write lock" % (nm, inc, zero) if ok_inc and ok_zero and len(locks) == 1 else
-               "%s does not (increment %s, zero %s) under one lock" % (nm, inc, zero))
+        # every method with the role (a `record_degraded()` that counts a success is a recorder of successes too)
+        for rb0_ in sorted(rb, key=lambda x: x.def_):
+            # judged on the recorder's fully inlined body: the updates may sit in a closure handed to a lock helper or in a
+            # method of the state struct
+            ffc_, ftrc_ = view_of(facts, "full")
+            rb = ffc_.bodies.get(rb0_.def_) or rb0_
+            tr_c_keep, tr = tr, ftrc_
+            rep.saw(rb)
+            ws = {}
+            for i, blk in enumerate(rb.blocks):
+                for j, s in enumerate(blk["stmts"]):
+                    if s["k"] == "assign" and s["lhs"]["p"]:
+                        names = [e.get("n") for e in s["lhs"]["p"] if isinstance(e, dict) and "f" in e]
+                        if names:
+                            ws[names[-1]] = peel(tr.stmt_value(rb, i, j))
+            vi = ws.get(inc)
+            if vi is not None and vi[0] == "field" and peel(vi[1])[0] == "binop":
+                vi = peel(vi[1])
+            ok_inc = vi is not None and vi[0] == "binop" and vi[1] in ("Add", "AddWithOverflow") and peel(vi[3])[0] == "const" and peel(vi[3])[3] == "1"
+            vz = ws.get(zero)
+            ok_zero = vz is not None and vz[0] == "const" and vz[3] == "0"
+            locks = [c for c in graph(rb).calls() if c.name in ("write", "lock")]
+            tr = tr_c_keep
+            rep.ob("C18.COUNTERS", skey(rb, "effect"), ok_inc and ok_zero and len(locks) == 1, "%s:%d" % (rb.span["file"], rb.span["line"]),
+                   "%s increments %s and zeroes %s under one write lock" % (nm, inc, zero) if ok_inc and ok_zero and len(locks) == 1 else
+                   "%s does not (increment %s, zero %s) under one lock" % (nm, inc, zero))
     # ---------------------------------------------------------------- SELECT
     # the selection helper, by role: the async body that filters the contexts and hands the survivors to the
     # selection strategy's select()
